@@ -7,6 +7,7 @@ import (
 	"go/types"
 	"io"
 	"math"
+	"math/big"
 	"math/bits"
 	"sort"
 	"strconv"
@@ -272,7 +273,52 @@ func (in *Interp) decSign(d *DecV) int {
 	return 0
 }
 
+// decNative converts a fully concrete DecV to the library's value.
+func decNative(d *DecV) (decimal128.Decimal, bool) {
+	if d.Lossy {
+		return decimal128.Decimal{}, false
+	}
+	switch d.Cls {
+	case DNaN:
+		return decimal128.NaN(), true
+	case DPosInf:
+		return decimal128.Inf(1), true
+	case DNegInf:
+		return decimal128.Inf(-1), true
+	}
+	r, ok := d.Val.RatVal()
+	if !ok {
+		return decimal128.Decimal{}, false
+	}
+	n := decimal128.FromRat(r)
+	if d.NegZ && r.Sign() == 0 {
+		n = n.Neg()
+	}
+	// only values the library represents exactly are handed to it
+	if n.Rat(nil).Cmp(r) != 0 {
+		return decimal128.Decimal{}, false
+	}
+	return n, true
+}
+
+// decBoth: both operands concrete -> the real library decides (including its
+// rounding to 34 digits); otherwise the contract model is used.
+func decBoth(x, y *DecV) (decimal128.Decimal, decimal128.Decimal, bool) {
+	a, ok1 := decNative(x)
+	if !ok1 {
+		return a, a, false
+	}
+	b, ok2 := decNative(y)
+	return a, b, ok2
+}
+
 func (in *Interp) decAdd(x, y *DecV, sub bool) *DecV {
+	if a, b, ok := decBoth(x, y); ok {
+		if sub {
+			return decFromNative(a.Sub(b))
+		}
+		return decFromNative(a.Add(b))
+	}
 	if x.Cls == DNaN || y.Cls == DNaN {
 		return &DecV{Cls: DNaN}
 	}
@@ -303,6 +349,9 @@ func (in *Interp) decAdd(x, y *DecV, sub bool) *DecV {
 }
 
 func (in *Interp) decMul(x, y *DecV) *DecV {
+	if a, b, ok := decBoth(x, y); ok {
+		return decFromNative(a.Mul(b))
+	}
 	if x.Cls == DNaN || y.Cls == DNaN {
 		return &DecV{Cls: DNaN}
 	}
@@ -320,6 +369,9 @@ func (in *Interp) decMul(x, y *DecV) *DecV {
 }
 
 func (in *Interp) decQuo(x, y *DecV) *DecV {
+	if a, b, ok := decBoth(x, y); ok {
+		return decFromNative(a.Quo(b))
+	}
 	if x.Cls == DNaN || y.Cls == DNaN {
 		return &DecV{Cls: DNaN}
 	}
@@ -364,6 +416,10 @@ func truncReal(v *Term) *Term {
 }
 
 func (in *Interp) decQuoRem(x, y *DecV) (*DecV, *DecV) {
+	if a, b, ok := decBoth(x, y); ok {
+		q, r := a.QuoRem(b)
+		return decFromNative(q), decFromNative(r)
+	}
 	if x.Cls == DNaN || y.Cls == DNaN {
 		return &DecV{Cls: DNaN}, &DecV{Cls: DNaN}
 	}
@@ -1072,6 +1128,62 @@ func registerStubs(w *World) {
 	S["math.Ceil"] = fl1(math.Ceil, func(in *Interp, f *FloatV) *FloatV {
 		return &FloatV{Cls: FFinite, Val: Neg(ToReal(ToIntFloor(Neg(f.Val)))), Bits: 64, Lossy: f.Lossy}
 	})
+	S["math.Trunc"] = fl1(math.Trunc, func(in *Interp, f *FloatV) *FloatV {
+		return &FloatV{Cls: FFinite, Val: truncReal(f.Val), Bits: 64, Lossy: f.Lossy}
+	})
+	S["math.Round"] = fl1(math.Round, func(in *Interp, f *FloatV) *FloatV {
+		half := RatC(big.NewRat(1, 2))
+		v := Ite(Ge(f.Val, RealOfInt(0)), ToReal(ToIntFloor(Add(f.Val, half))), Neg(ToReal(ToIntFloor(Add(Neg(f.Val), half)))))
+		return &FloatV{Cls: FFinite, Val: v, Bits: 64, Lossy: f.Lossy}
+	})
+	fl2 := func(native func(a, b float64) float64, sym func(in *Interp, x, y *FloatV) Value) StubFn {
+		return func(in *Interp, fn *ssa.Function, a []Value) Value {
+			x, y := a[0].(*FloatV), a[1].(*FloatV)
+			if gx, ok := x.GoFloat(); ok {
+				if gy, ok := y.GoFloat(); ok {
+					return FloatFromGo(native(gx, gy), 64)
+				}
+			}
+			return sym(in, x, y)
+		}
+	}
+	S["math.Max"] = fl2(math.Max, func(in *Interp, x, y *FloatV) Value {
+		if x.Cls != FFinite || y.Cls != FFinite {
+			in.unsupported("math.Max on symbolic non-finite")
+		}
+		return &FloatV{Cls: FFinite, Val: Ite(Ge(x.Val, y.Val), x.Val, y.Val), Bits: 64, Lossy: x.Lossy || y.Lossy}
+	})
+	S["math.Min"] = fl2(math.Min, func(in *Interp, x, y *FloatV) Value {
+		if x.Cls != FFinite || y.Cls != FFinite {
+			in.unsupported("math.Min on symbolic non-finite")
+		}
+		return &FloatV{Cls: FFinite, Val: Ite(Le(x.Val, y.Val), x.Val, y.Val), Bits: 64, Lossy: x.Lossy || y.Lossy}
+	})
+	S["math.Pow"] = fl2(math.Pow, func(in *Interp, x, y *FloatV) Value {
+		in.unsupported("math.Pow on symbolic values")
+		return nil
+	})
+	S["math.Sqrt"] = fl1(math.Sqrt, func(in *Interp, f *FloatV) *FloatV {
+		in.unsupported("math.Sqrt on symbolic value")
+		return nil
+	})
+	S["math.Signbit"] = func(in *Interp, fn *ssa.Function, a []Value) Value {
+		f := a[0].(*FloatV)
+		switch f.Cls {
+		case FNegInf:
+			return True
+		case FPosInf, FNaN:
+			return False
+		}
+		return Or(Lt(f.Val, RealOfInt(0)), And(isZeroT(f.Val), BoolC(f.NegZ)))
+	}
+	S["math.Inf"] = func(in *Interp, fn *ssa.Function, a []Value) Value {
+		if in.branch(Ge(a[0].(*Term), IntC(0))) {
+			return &FloatV{Cls: FPosInf, Bits: 64}
+		}
+		return &FloatV{Cls: FNegInf, Bits: 64}
+	}
+	S["math.NaN"] = func(in *Interp, fn *ssa.Function, a []Value) Value { return &FloatV{Cls: FNaN, Bits: 64} }
 	S["math.IsNaN"] = func(in *Interp, fn *ssa.Function, a []Value) Value {
 		return BoolC(a[0].(*FloatV).Cls == FNaN)
 	}
@@ -1399,13 +1511,97 @@ func registerStubs(w *World) {
 	}
 	S[D+"Floor"] = func(in *Interp, fn *ssa.Function, a []Value) Value {
 		d := in.toDec(a[0])
+		if n, ok := decNative(d); ok {
+			return decFromNative(decimal128.Floor(n))
+		}
 		if d.Cls != DFinite {
 			return d
 		}
 		return &DecV{Cls: DFinite, Val: ToReal(ToIntFloor(d.Val)), Lossy: d.Lossy}
 	}
+	S[D+"Trunc"] = func(in *Interp, fn *ssa.Function, a []Value) Value {
+		d := in.toDec(a[0])
+		if n, ok := decNative(d); ok {
+			return decFromNative(decimal128.Trunc(n))
+		}
+		if d.Cls != DFinite {
+			return d
+		}
+		return &DecV{Cls: DFinite, Val: truncReal(d.Val), Lossy: d.Lossy}
+	}
+	S[D+"Round"] = func(in *Interp, fn *ssa.Function, a []Value) Value {
+		d := in.toDec(a[0])
+		if n, ok := decNative(d); ok {
+			return decFromNative(decimal128.Round(n))
+		}
+		in.unsupported("decimal128.Round on symbolic value")
+		return nil
+	}
+	S[D+"NaN"] = func(in *Interp, fn *ssa.Function, a []Value) Value { return &DecV{Cls: DNaN} }
+	S[D+"Inf"] = func(in *Interp, fn *ssa.Function, a []Value) Value {
+		if in.branch(Ge(a[0].(*Term), IntC(0))) {
+			return &DecV{Cls: DPosInf}
+		}
+		return &DecV{Cls: DNegInf}
+	}
+	S[D+"Max"] = func(in *Interp, fn *ssa.Function, a []Value) Value {
+		x, y := in.toDec(a[0]), in.toDec(a[1])
+		c := in.decCmp(x, y)
+		if c == -2 {
+			return &DecV{Cls: DNaN}
+		}
+		if c >= 0 {
+			return x
+		}
+		return y
+	}
+	S[D+"Min"] = func(in *Interp, fn *ssa.Function, a []Value) Value {
+		x, y := in.toDec(a[0]), in.toDec(a[1])
+		c := in.decCmp(x, y)
+		if c == -2 {
+			return &DecV{Cls: DNaN}
+		}
+		if c <= 0 {
+			return x
+		}
+		return y
+	}
+	S[D+"MustParse"] = func(in *Interp, fn *ssa.Function, a []Value) Value {
+		r := S[D+"Parse"](in, fn, a).(TupleV)
+		if e := in.force(r[1]); e.T != nil {
+			in.goPanic("decimal128.MustParse: invalid syntax")
+		}
+		return r[0]
+	}
+	S[DM+"Sign"] = func(in *Interp, fn *ssa.Function, a []Value) Value {
+		return IntC(int64(in.decSign(in.toDec(a[0]))))
+	}
+	S[DM+"Float64"] = func(in *Interp, fn *ssa.Function, a []Value) Value {
+		d := in.toDec(a[0])
+		if n, ok := decNative(d); ok {
+			return FloatFromGo(n.Float64(), 64)
+		}
+		switch d.Cls {
+		case DNaN:
+			return &FloatV{Cls: FNaN, Bits: 64}
+		case DPosInf:
+			return &FloatV{Cls: FPosInf, Bits: 64}
+		case DNegInf:
+			return &FloatV{Cls: FNegInf, Bits: 64}
+		}
+		// rounding to binary64: uninterpreted, exact on integers up to 2^53
+		f := UF("fl64", SReal, d.Val)
+		if k, isInt := asInt(d.Val); isInt {
+			lim := BigC(pow2[53])
+			in.bg = append(in.bg, Implies(And(Le(Neg(lim), k), Le(k, lim)), Eq(f, d.Val)))
+		}
+		return &FloatV{Cls: FFinite, Val: f, Bits: 64, Lossy: true}
+	}
 	S[D+"Ceil"] = func(in *Interp, fn *ssa.Function, a []Value) Value {
 		d := in.toDec(a[0])
+		if n, ok := decNative(d); ok {
+			return decFromNative(decimal128.Ceil(n))
+		}
 		if d.Cls != DFinite {
 			return d
 		}
